@@ -192,4 +192,33 @@ def nestBody (kids : Entry → List (Rat × Nat)) (nest : Entry → Option (Rat 
   | none => plainBody kids e
   | some (d, k) => ⟨(kids e).take k, some (e.time + d), (kids e).drop k⟩
 
+/-! ### A callback that raises at once, with callbacks that read the clock (round 6)
+
+`loopX` with the clock handed to the callbacks (`loopC`'s callbacks): the docstring idiom
+`add_callback(self.t + period, ...)` combined with a callback that raises before doing anything. -/
+
+def loopXC (kidsC : Rat → Entry → List (Rat × Nat)) (raises : Entry → Bool) (T : Rat) : Nat → Sys → RunX
+  | 0, s => ⟨⟨.outOfFuel, s, []⟩, none⟩
+  | fuel + 1, s =>
+    match s.queue with
+    | e :: rest =>
+      if e.time < T then
+        let a := advance { s with queue := rest } (e.time - s.t)
+        if raises e then ⟨⟨.outOfFuel, a.1, a.2 ++ [Event.fire e a.1.t]⟩, some e⟩
+        else
+          let r := loopXC kidsC raises T fuel (addAll a.1 (kidsC a.1.t e))
+          ⟨{ r.run with trace := a.2 ++ Event.fire e a.1.t :: r.run.trace }, r.raisedAt⟩
+      else
+        let a := advance s (T - s.t)
+        ⟨⟨.ok, a.1, a.2⟩, none⟩
+    | [] =>
+      let a := advance s (T - s.t)
+      ⟨⟨.ok, a.1, a.2⟩, none⟩
+
+def kidsExceptC (kidsC : Rat → Entry → List (Rat × Nat)) (e : Entry) : Rat → Entry → List (Rat × Nat) :=
+  fun clk x => if x = e then [] else kidsC clk x
+
+def evolveUntilXC (kidsC : Rat → Entry → List (Rat × Nat)) (raises : Entry → Bool) (fuel : Nat) (s : Sys) (T : Rat) : RunX :=
+  if T < s.t then ⟨⟨.backwards, s, []⟩, none⟩ else loopXC kidsC raises T fuel s
+
 end HcipyVerif.Scheduler
